@@ -1,0 +1,105 @@
+//! Verification hook: lets a deterministic-simulation harness (in `/verif`) put a
+//! simulated file system below the system-call wrappers of this crate.
+//!
+//! Compiled only with `--cfg aranya_verif`. Nothing is installed by default, in
+//! which case every wrapper behaves exactly as without the hook. State is
+//! thread-local: a simulated run lives on one thread.
+
+#[allow(unused_extern_crates)]
+extern crate std;
+
+use alloc::rc::Rc;
+use core::{cell::RefCell, ffi::c_int};
+
+use crate::{errno::Errno, path::Path};
+
+/// A raw file descriptor.
+pub type RawFd = c_int;
+
+/// Result of an intercepted call: `None` means "not mine, do the real call".
+pub type Intercept<T> = Option<Result<T, c_int>>;
+
+/// The system calls a simulator can take over. Errors are raw `errno` codes.
+#[allow(missing_docs)]
+pub trait SimSys {
+    fn open(&self, path: &[u8], oflag: c_int, mode: u32) -> Intercept<RawFd>;
+    fn openat(&self, dirfd: RawFd, path: &[u8], oflag: c_int, mode: u32) -> Intercept<RawFd>;
+    fn close(&self, fd: RawFd) -> Intercept<()>;
+    fn flock(&self, fd: RawFd, op: c_int) -> Intercept<()>;
+    fn fsync(&self, fd: RawFd) -> Intercept<()>;
+    fn fdatasync(&self, fd: RawFd) -> Intercept<()>;
+    fn fallocate(&self, fd: RawFd, mode: c_int, off: i64, len: i64) -> Intercept<()>;
+    fn pread(&self, fd: RawFd, buf: &mut [u8], off: i64) -> Intercept<usize>;
+    fn pwrite(&self, fd: RawFd, buf: &[u8], off: i64) -> Intercept<usize>;
+    fn unlinkat(&self, dirfd: RawFd, path: &[u8], flags: c_int) -> Intercept<()>;
+    fn dup(&self, fd: RawFd) -> Intercept<RawFd>;
+}
+
+std::thread_local! {
+    static SYS: RefCell<Option<Rc<dyn SimSys>>> = const { RefCell::new(None) };
+}
+
+/// Installs (or with `None` removes) the simulator of the current thread.
+pub fn install(sys: Option<Rc<dyn SimSys>>) {
+    SYS.with(|s| *s.borrow_mut() = sys);
+}
+
+fn current() -> Option<Rc<dyn SimSys>> {
+    SYS.with(|s| s.borrow().clone())
+}
+
+fn conv<T>(r: Intercept<T>) -> Option<Result<T, Errno>> {
+    r.map(|r| r.map_err(Errno::from_raw_os_error))
+}
+
+fn bytes(path: &Path) -> &[u8] {
+    let b = path.as_bytes();
+    match b.iter().position(|x| *x == 0) {
+        Some(i) => b.get(..i).unwrap_or(b),
+        None => b,
+    }
+}
+
+pub(crate) fn open(path: &Path, oflag: c_int, mode: u32) -> Option<Result<RawFd, Errno>> {
+    conv(current()?.open(bytes(path), oflag, mode))
+}
+
+pub(crate) fn openat(dirfd: RawFd, path: &Path, oflag: c_int, mode: u32) -> Option<Result<RawFd, Errno>> {
+    conv(current()?.openat(dirfd, bytes(path), oflag, mode))
+}
+
+pub(crate) fn close(fd: RawFd) -> Option<Result<(), Errno>> {
+    conv(current()?.close(fd))
+}
+
+pub(crate) fn flock(fd: RawFd, op: c_int) -> Option<Result<(), Errno>> {
+    conv(current()?.flock(fd, op))
+}
+
+pub(crate) fn fsync(fd: RawFd) -> Option<Result<(), Errno>> {
+    conv(current()?.fsync(fd))
+}
+
+pub(crate) fn fdatasync(fd: RawFd) -> Option<Result<(), Errno>> {
+    conv(current()?.fdatasync(fd))
+}
+
+pub(crate) fn fallocate(fd: RawFd, mode: c_int, off: i64, len: i64) -> Option<Result<(), Errno>> {
+    conv(current()?.fallocate(fd, mode, off, len))
+}
+
+pub(crate) fn pread(fd: RawFd, buf: &mut [u8], off: i64) -> Option<Result<usize, Errno>> {
+    conv(current()?.pread(fd, buf, off))
+}
+
+pub(crate) fn pwrite(fd: RawFd, buf: &[u8], off: i64) -> Option<Result<usize, Errno>> {
+    conv(current()?.pwrite(fd, buf, off))
+}
+
+pub(crate) fn unlinkat(dirfd: RawFd, path: &Path, flags: c_int) -> Option<Result<(), Errno>> {
+    conv(current()?.unlinkat(dirfd, bytes(path), flags))
+}
+
+pub(crate) fn dup(fd: RawFd) -> Option<Result<RawFd, Errno>> {
+    conv(current()?.dup(fd))
+}
